@@ -373,6 +373,48 @@ fn anb(a: i64, b: i64) -> String {
   }
 }
 
+/// name of the global utility a "cons" record stands for
+fn global_id(r: &Value) -> String {
+  use std::hash::{Hash, Hasher};
+  let mut h = std::collections::hash_map::DefaultHasher::new();
+  r.to_string().hash(&mut h);
+  format!("g{:x}", h.finish() & 0xffff_ffff)
+}
+
+/// the global utility rules (id, language, rule, constraints) a rule record refers to
+pub fn global_docs(u: &Value, r: &Value, out: &mut Vec<Value>) {
+  match r {
+    Value::Object(m) => {
+      if m.get("op").and_then(|o| o.as_str()) == Some("cons") {
+        let id = global_id(r);
+        if !out.iter().any(|d| d["id"] == id.as_str()) {
+          let var = r["var"].as_str().unwrap_or("A").to_string();
+          let mut cons = Map::new();
+          cons.insert(var, rule_yaml(u, &r["crule"]));
+          out.push(json!({"id": id, "language": u["lang"], "rule": rule_yaml(u, &r["sub"]), "constraints": Value::Object(cons)}));
+        }
+      }
+      for v in m.values() {
+        global_docs(u, v, out);
+      }
+    }
+    Value::Array(a) => {
+      for v in a {
+        global_docs(u, v, out);
+      }
+    }
+    _ => {}
+  }
+}
+
+fn globals_of(docs: &[Value]) -> Result<GlobalRules<SupportLang>, String> {
+  let mut utils = vec![];
+  for d in docs {
+    utils.push(from_str(&serde_json::to_string(d).unwrap()).map_err(|e| e.to_string())?);
+  }
+  DeserializeEnv::parse_global_utils(utils).map_err(|e| format!("{e:?}"))
+}
+
 /// rule record (TLC json) -> serde_json value in the YAML rule schema
 pub fn rule_yaml(u: &Value, r: &Value) -> Value {
   let op = r["op"].as_str().unwrap();
@@ -385,6 +427,8 @@ pub fn rule_yaml(u: &Value, r: &Value) -> Value {
     }
     "regex" => json!({"regex": regex_of(&r["texts"])}),
     "range" => json!({"range": {"start": {"line": r["sl"], "column": r["sc"]}, "end": {"line": r["el"], "column": r["ec"]}}}),
+    // a reference to a global utility rule with a constraint; the utility itself is produced by global_docs()
+    "cons" => json!({"matches": global_id(r)}),
     "nth" => {
       let pos = anb(r["a"].as_i64().unwrap(), r["b"].as_i64().unwrap());
       if r["of"]["op"] == "none" && r["rev"] == false {
@@ -451,6 +495,8 @@ pub fn drive(universe_file: &str, vectors: &str, out: &str) {
     let rule_json = rule_yaml(u, &v["rule"]);
     let utils_json: Map<String, Value> = v["utils"].as_object().map(|m| m.iter().map(|(k, r)| (k.clone(), rule_yaml(u, r))).collect()).unwrap_or_default();
     let yaml_rule = serde_json::to_string(&rule_json).unwrap(); // JSON is YAML
+    let mut gdocs = vec![];
+    global_docs(u, &v["rule"], &mut gdocs);
     let src = tree["src"].as_str().unwrap();
     let g = l.ast_grep(src);
     let p = proj::project(&g.root(), true);
@@ -465,7 +511,8 @@ pub fn drive(universe_file: &str, vectors: &str, out: &str) {
       for (k, r) in &utils_json {
         utils.insert(k.clone(), from_str(&serde_json::to_string(r).unwrap()).map_err(|e| e.to_string())?);
       }
-      let env = DeserializeEnv::new(l).with_utils(&utils).map_err(|e| e.to_string())?;
+      let globals = globals_of(&gdocs)?;
+      let env = DeserializeEnv::new(l).with_globals(&globals).with_utils(&utils).map_err(|e| e.to_string())?;
       let rule = env.deserialize_rule(ser).map_err(|e| e.to_string())?;
       Ok((env, rule))
     }));
@@ -494,8 +541,10 @@ pub fn drive(universe_file: &str, vectors: &str, out: &str) {
       full["utils"] = Value::Object(utils_json.clone());
     }
     let full_yaml = serde_json::to_string(&full).unwrap();
-    let globals = GlobalRules::default();
-    let cfg = catch_unwind(AssertUnwindSafe(|| from_yaml_string::<SupportLang>(&full_yaml, &globals)));
+    let cfg = catch_unwind(AssertUnwindSafe(|| {
+      let globals = globals_of(&gdocs).unwrap_or_default();
+      from_yaml_string::<SupportLang>(&full_yaml, &globals)
+    }));
     match cfg {
       Ok(Ok(cfgs)) => {
         n_cfg += 1;
